@@ -169,7 +169,7 @@ theorem default_response_short (h : RawHead) : (serverSpec .none_ h).1.length < 
       have : (lowerAll srvRespAcceptName).length = 20 := by decide
       simp only [headerLine, List.length_append, this, h1, colonSp, crlf, List.length_cons, List.length_nil]
     have e4 : statusLine101.length = 34 := by decide
-    simp only [response101, List.length_append, e1, e2, e3, e4, crlf, List.map_nil,
+    simp only [response101, headerLines_base, List.length_append, e1, e2, e3, e4, crlf, List.map_nil,
       List.flatten_nil, List.length_nil, List.length_cons]
     omega
 
